@@ -150,7 +150,7 @@ def run_problem(job):
                 e["xd"] = e["x"]
         c0enc, _ = ec.enc_vec(c0row, s_exp)
         lnk = [int(round(math.log(k) * 1e6)) for k in params[ns:]]
-        tr = [{"ev": "problem", "rs": inp["rids"], "lnK": lnk, "c0": c0enc}] + body
+        tr = [{"ev": "problem", "rs": inp["rids"], "lnK": lnk, "c0": c0enc, "sexp": s_exp}] + body
         meta = dict(chain=chain, rids=inp["rids"], cls=case["cls"], K=inp["K"], c0=[float("%.6g" % v) for v in c0row],
                     wellcond=bool(case["exp"]["wellcond"]), clipped=clipped, row=idx)
         failed = exc is not None and (rows is None or idx >= len(rows))
@@ -284,6 +284,22 @@ def run(ctx):
     ctx.counters["pool_problems"] = len(cases)
 
     sel, jobs = _plan(ctx, cases)
+
+    # ---- TLC: single-equilibrium problems of every stoichiometric shape (coefficients 2 and 3 on either
+    # side, three products, species on both sides), strictly positive: root vs the bracketing solver
+    singles = []
+    for tag in (("q",) if ctx.quick else ("q", "t")):
+        r1 = ctx.tlc("EqSolve_MC", "EqSolve_MC_single_%s.cfg" % tag, require_cases=300, timeout=600)
+        singles += [c for c in r1.cases if c["exp"]["single"]]
+    shapes = {tuple(sorted(c["in"]["nu"][0])) for c in singles}
+    if len(shapes) < 8:
+        raise core.MachineryFailure("single-equilibrium pool has only %d stoichiometric shapes" % len(shapes))
+    ctx.counters["single_problems"] = len(singles)
+    ctx.counters["single_shapes"] = len(shapes)
+    done = {core.stable_hash(j[0]["in"]) for j in jobs if j[1] == "root-default"}
+    for c in singles:
+        if core.stable_hash(c["in"]) not in done:
+            jobs.append((c, "root-default", 0))
     outs = ctx.pmap(run_problem, jobs)
     items = []
     for job, rows in zip(jobs, outs):
